@@ -37,6 +37,38 @@ theorem J.beqKvs_eq : ∀ a b : List (String × J), J.beqKvs a b = true → a = 
         exact ⟨⟨h0, J.beq_eq x y h1⟩, J.beqKvs_eq xs ys h2⟩
 end
 
+mutual
+theorem Op.beq_eq : ∀ a b : Op, Op.beq a b = true → a = b
+  | .add k v, b => by
+      cases b <;> simp [Op.beq]
+      intro h1 h2; exact ⟨h1, J.beq_eq _ _ h2⟩
+  | .remove k, b => by cases b <;> simp [Op.beq]
+  | .replace k v, b => by
+      cases b <;> simp [Op.beq]
+      intro h1 h2; exact ⟨h1, J.beq_eq _ _ h2⟩
+  | .patchK k d, b => by
+      cases b <;> simp [Op.beq]
+      intro h1 h2; exact ⟨h1, Op.beqList_eq _ _ h2⟩
+  | .addrange i vs, b => by
+      cases b <;> simp [Op.beq]
+      intro h1 h2; exact ⟨h1, J.beqList_eq _ _ h2⟩
+  | .addchars i cs, b => by cases b <;> simp [Op.beq]
+  | .removerange i n, b => by cases b <;> simp [Op.beq]
+  | .patchI i d, b => by
+      cases b <;> simp [Op.beq]
+      intro h1 h2; exact ⟨h1, Op.beqList_eq _ _ h2⟩
+  | .invalid a, b => by cases b <;> simp [Op.beq]
+theorem Op.beqList_eq : ∀ a b : List Op, Op.beqList a b = true → a = b
+  | [], b => by cases b <;> simp [Op.beqList]
+  | x :: xs, b => by
+      cases b with
+      | nil => simp [Op.beqList]
+      | cons y ys =>
+        simp [Op.beqList]
+        intro h1 h2
+        exact ⟨Op.beq_eq x y h1, Op.beqList_eq xs ys h2⟩
+end
+
 /- no booleans and no floats anywhere: the only numbers are ints -/
 mutual
 def J.intsOnly : J → Bool
